@@ -20,6 +20,8 @@ def run(ctx):
     evs.append({"ev": "case", "id": 900000, "mode": 8, "desc": "requests issued while browsing both UI worlds", "conns": len(browsing)})
     evs += browsing
     res.extra["connections_while_browsing"] = len(browsing)
+    res.extra["default_port_scenarios_skipped"] = [e["what"] + ": " + e["why"] for e in evs if e["ev"] == "skipped"]
+    res.extra["default_port_connections"] = sum(1 for e in evs if e["ev"] == "conn" and "host_alt" in e)
     bad, r = vlib.judge(ctx, "T_Request", "T_Request.cfg", evs)
     res.add_tlc(r)
     case = None
@@ -36,7 +38,8 @@ def run(ctx):
                 "spaces, percent signs, userinfo, fragments, non-https schemes) given to the real code as typed input, as a "
                 "Location header or as a document reference; every connection's raw bytes are judged by T_Request against "
                 "Request.tla; distinct = distinct (channel, input)")
-    res.assumptions = ["dot segments and empty path segments are not generated (RFC 3986 normalisation is allowed)",
+    res.assumptions = ["a Host header may leave out the default port 443 (judged only when port 443 can be bound on loopback)",
+                       "TLS layer: a resumed session or a client certificate counts as identifying data", "dot segments and empty path segments are not generated (RFC 3986 normalisation is allowed)",
                        "request-target equivalence = equal percent-decoded path and query"]
     for b in bad:
         e = evs[b["line"] - 1]
